@@ -95,6 +95,10 @@ impl<'a> IntoIterator for &'a Directory {
     }
 }
 
+fn invalid_data(message: &'static str) -> std::io::Error {
+    std::io::Error::new(std::io::ErrorKind::InvalidData, message)
+}
+
 impl Directory {
     #[duplicate_item(
         fn_name                  cfg_async_filter       input_traits                         decompress(compression, binding)              read_varint(type, reader)                  async;
@@ -120,7 +124,9 @@ impl Directory {
         for _ in 0..num_entries {
             let tmp = read_varint([u64], [reader])?;
 
-            last_id += tmp;
+            last_id = last_id
+                .checked_add(tmp)
+                .ok_or_else(|| invalid_data("Tile id of a directory entry overflows."))?;
             entries.push(Entry {
                 tile_id: last_id,
                 length: 0,
@@ -153,9 +159,14 @@ impl Directory {
             let val = read_varint([u64], [reader])?;
 
             entries[i].offset = if i > 0 && val == 0 {
-                entries[i - 1].offset + u64::from(entries[i - 1].length)
+                entries[i - 1]
+                    .offset
+                    .checked_add(u64::from(entries[i - 1].length))
+                    .ok_or_else(|| invalid_data("Offset of a directory entry overflows."))?
             } else {
-                val - 1
+                val.checked_sub(1).ok_or_else(|| {
+                    invalid_data("First entry of a directory must have an explicit offset.")
+                })?
             };
         }
 
